@@ -86,6 +86,8 @@ Definition c11_spec_null (c : c11_case) : bool :=
         let vs := map (leaf_value ctx) args in
         let has_null := existsb (fun o => match o with Some VNull => true | _ => false end) vs in
         (if fd_strict d && has_null then outcome_eqb obs (Ok VNull) else true) &&
+        (* comparisons propagate NULL whatever the table says about their Strict flag *)
+        (if existsb (name_is d) ["="; "!="; "<"; "<="; ">"; ">="] && has_null then outcome_eqb obs (Ok VNull) else true) &&
         (if name_is d "is null" || name_is d "is not null"
          then match obs with Ok (VBool _) => true | _ => false end else true)
       else true
